@@ -68,6 +68,13 @@ func Walk(ctx context.Context, fileSystem fs.FS, prefix, delimiter, marker strin
 		}
 	}
 
+	// nothing inside an internal directory is listed, whatever the prefix
+	for _, skip := range skipdirs {
+		if root == skip || strings.HasPrefix(root, skip+"/") {
+			return WalkResults{}, nil
+		}
+	}
+
 	err := fs.WalkDir(fileSystem, root, func(path string, d fs.DirEntry, err error) error {
 		if err != nil {
 			return err
